@@ -634,6 +634,25 @@ def crash_points(ctx, cm, d, base, clock, op, submitted, prefix, rng):
                                   f'neither the state before ({len(before[n]) - 1}) nor after ({len(after[n]) - 1}) the write',
                                   {'history': repr(prefix + [op])[:1500], 'crash_at_primitive': k, 'torn_at': torn, 'store': n})
                     break
+            else:
+                # life goes on after the crash: the restarted process writes again - over whatever the crash left behind (a temp file) -,
+                # here a SHORTER store (one entry consumed); the next restart must find exactly that
+                c3 = make_corr(cm, work, ck2)
+                for n in STORES:
+                    pd = getattr(c3, n)
+                    keys = list(pd.keys())
+                    if not keys:
+                        continue
+                    pd.pop(keys[0], None)
+                    want_n = stores_of(c3)[n]
+                    got_n = stores_of(make_corr(cm, work, ck2))[n]
+                    ctx.count('write_after_crash_checked')
+                    if got_n != want_n:
+                        bad += 1
+                        ctx.violation(f'after a crash at I/O primitive {k} {prims[k - 1]} (torn at {torn}) of {op[0]} and a restart, consuming one entry of {n} '
+                                      f'leaves a file that loads with {len(got_n) - 1} entries instead of {len(want_n) - 1}',
+                                      {'history': repr(prefix + [op])[:1500], 'crash_at_primitive': k, 'torn_at': torn, 'store': n, 'then': 'pop one entry, restart'})
+                        break
     finally:
         loop.close()
         for x in ('ref', 'crash', 'mid'):
